@@ -401,28 +401,14 @@ def outcome_strings(gates):
     return res
 
 
-def o7b_structures(tier):
-    sts = []
-    for k, (name, gates, n) in enumerate(nested_circuits()):
-        for s in outcome_strings(gates):
-            sts.append({"circuit": name, "k": k, "desired": s})
-    return sts
-
-
-@contract("C10", "O7b.cmeasure.nested.defining_recursion", level="S", structures=o7b_structures,
-          targets=[(TGC, "CirqSimulator.simulate_circuit"), (BK, "Backend.simulate"), (C, "generate_applied_gates"), (C, "get_unitary_circuit_pieces"), (C, "Circuit.applied_gates")])
-def o7b(h, st):
-    """nested measurement control (up to three levels, gates trailing an inner CMEASURE, further top-level measurements afterwards), every complete outcome string:
-    the applied gates are exactly, and in the order of, the defining recursion (branch gates directly after their CMEASURE); generate_applied_gates returns the same
-    list; the recorded probability and the final state are those of the Born-rule evolution of that gate sequence; zero-probability strings are refused"""
+def branch_reference(gates, n, d, init=None):
+    """(selected gate sequence, final state, probability) of the branch with outcome string d: Born-rule evolution of the defining recursion"""
     import numpy as np
-    from tangelo.linq import get_backend
-    name, gates, n = nested_circuits()[st["k"]]
-    d = st["desired"]
     exp = selected_gates(gates, list(d))
-    # Born-rule reference on the expected sequence
     psi = np.zeros(2 ** n, dtype=complex)
     psi[0] = 1
+    if init is not None:
+        psi = np.array(init, dtype=complex)
     prob = 1.0
     for (gn, tg, ct, par) in exp:
         if gn in ("MEASURE", "CMEASURE"):
@@ -433,19 +419,51 @@ def o7b(h, st):
             p = float(np.linalg.norm(psi) ** 2)
             prob *= p
             if p < 1e-12:
-                break
+                return exp, psi, 0.0
             psi = psi / np.sqrt(p)
         else:
             psi = qsem.to_numpy(qsem.unitary([mk_gate(gn, tg, ct, par)], n, exact=False)[0], n) @ psi
+    return exp, psi, prob
+
+
+def o7b_structures(tier):
+    sts = []
+    for k, (name, gates, n) in enumerate(nested_circuits()):
+        for s in outcome_strings(gates):
+            sts.append({"circuit": name, "k": k, "desired": s, "init": False})
+            sts.append({"circuit": name, "k": k, "desired": s, "init": True})
+    return sts
+
+
+@contract("C10", "O7b.cmeasure.nested.defining_recursion", level="S", structures=o7b_structures,
+          targets=[(TGC, "CirqSimulator.simulate_circuit"), (BK, "Backend.simulate"), (C, "generate_applied_gates"), (C, "get_unitary_circuit_pieces"), (C, "Circuit.applied_gates")])
+def o7b(h, st):
+    """nested measurement control (up to three levels, gates trailing an inner CMEASURE, further top-level measurements afterwards), every complete outcome string:
+    the applied gates are exactly, and in the order of, the defining recursion (branch gates directly after their CMEASURE); generate_applied_gates returns the same
+    list; the recorded probability and the final state are those of the Born-rule evolution of that gate sequence - from |0...0> or from a supplied (random complex) initial
+    statevector, which is left unchanged; zero-probability strings are refused"""
+    import numpy as np
+    from tangelo.linq import get_backend
+    name, gates, n = nested_circuits()[st["k"]]
+    d = st["desired"]
+    init = None
+    if st.get("init"):
+        rs = np.random.default_rng(11 + st["k"])
+        init = rs.normal(size=2 ** n) + 1j * rs.normal(size=2 ** n)
+        init = init / np.linalg.norm(init)
+    exp, psi, prob = branch_reference(gates, n, d, init)
     c = mk_circuit(gates, n)
     sim = get_backend("cirq")
     if prob < 1e-12:
-        e = h.raises(lambda: h.call(BK, "Backend.simulate", sim, c, True, None, d), ValueError)
+        e = h.raises(lambda: h.call(BK, "Backend.simulate", sim, c, True, init, d), ValueError)
         h.check("outcome string of zero probability is refused", e is not None)
         h.done()
         return
-    freqs, sv = h.call(BK, "Backend.simulate", sim, c, True, None, d)
+    init_before = None if init is None else init.copy()
+    freqs, sv = h.call(BK, "Backend.simulate", sim, c, True, init, d)
     applied = h.getattr(c, "applied_gates")
+    if init is not None:
+        h.check("caller's initial statevector unchanged", np.array_equal(init, init_before))
 
     def sig(gs):
         return [(g.name, list(g.target), g.control, g.parameter) for g in gs]
@@ -458,6 +476,43 @@ def o7b(h, st):
     h.check("final state is the Born-rule state of the branch", abs(abs(np.vdot(psi, sv)) - 1) < 1e-7 and abs(np.linalg.norm(sv) - 1) < 1e-7, detail=f"{sv} vs {psi}")
     expf = {format(i, f"0{n}b"): abs(psi[i]) ** 2 for i in range(2 ** n) if abs(psi[i]) ** 2 > 1e-10}
     h.check("final distribution of the branch", set(freqs) == set(expf) and all(abs(freqs[k] - expf[k]) < 1e-7 for k in expf), detail=f"{freqs} vs {expf}")
+    h.done()
+
+
+@contract("C10", "O8b.sampled.nested_control", level="B", structures=lambda tier: [{"k": k, "save": sv} for k in range(len(nested_circuits())) for sv in (False, True)],
+          native_samples=lambda st, rnd, tier: [{"seed": rnd.randint(0, 10 ** 6)} for _ in range(1 if tier == "quick" else 4)],
+          targets=[(BK, "Backend.simulate"), (TGC, "CirqSimulator.simulate_circuit"), (PS, "split_frequency_dict")])
+def o8b(h, st):
+    """bounded (sampled runs of the nested measurement-controlled programs, 30 shots): every sampled mid-circuit string is a complete outcome string of non-zero
+    probability and the probability recorded for it is the exact branch probability; sampled final bitstrings lie in the support of a sampled branch; frequencies are
+    multiples of 1/n_shots summing to 1; with save_mid_circuit_meas the joint strings are (branch string) ++ (bitstring in that branch's support)"""
+    import numpy as np
+    from tangelo.linq import get_backend
+    np.random.seed(int(h.integer("seed")) % (2 ** 31))
+    name, gates, n = nested_circuits()[st["k"]]
+    ref = {}
+    for d in outcome_strings(gates):
+        _, psi, prob = branch_reference(gates, n, d)
+        if prob > 1e-12:
+            ref[d] = (prob, {format(i, f"0{n}b") for i in range(2 ** n) if abs(psi[i]) ** 2 > 1e-12})
+    c = mk_circuit(gates, n)
+    shots = 30
+    sim = get_backend("cirq", n_shots=shots)
+    freqs, _ = h.call(BK, "Backend.simulate", sim, c, False, None, None, st["save"])
+    h.check("frequencies sum to one", abs(sum(freqs.values()) - 1) < 1e-9)
+    h.check("multiples of 1/n_shots", all(abs(v * shots - round(v * shots)) < 1e-9 for v in freqs.values()))
+    probs = h.getattr(c, "success_probabilities")
+    h.check("sampled outcome strings are complete strings of non-zero probability", set(probs) <= set(ref), detail=f"{set(probs) - set(ref)}")
+    h.check("probability recorded for a sampled string is the exact branch probability", all(abs(probs[d] - ref[d][0]) < 1e-9 for d in probs if d in ref),
+            detail=str({d: (probs[d], ref[d][0]) for d in probs if d in ref}))
+    support = set().union(*[ref[d][1] for d in probs if d in ref]) if probs else set()
+    h.check("sampled final bitstrings lie in the support of the sampled branches", set(freqs) <= support, detail=f"{set(freqs) - support}")
+    if st["save"]:
+        mid = sim.mid_circuit_meas_freqs
+        h.check("mid-circuit frequencies: reachable strings, sum one", set(mid) <= set(ref) and abs(sum(mid.values()) - 1) < 1e-9, detail=str(mid))
+        allf = sim.all_frequencies
+        ok = all(any(k.startswith(d) and len(k) == len(d) + n and k[len(d):] in ref[d][1] for d in ref) for k in allf)
+        h.check("joint strings == branch string ++ bitstring in that branch's support", ok, detail=str(allf))
     h.done()
 
 
